@@ -955,11 +955,13 @@ def replay(data):
 # --- translated small functions (tools/gens/gen_pure.py): Props/T_directives.v proves the regenerated Python functions
 # equal to the hand models this property's theorems are about; explore_t cross-checks the translator itself
 import t_check  # noqa: E402
-PROP_FILES = PROP_FILES + ["Props/T_directives.v"]
-RUN_FILES = RUN_FILES + ["Run/TRunDirectives.v"]
+import t_check3  # noqa: E402  (tools/gens/gen_pure3.py: whole bodies of .byte/.word/.dword regenerated from the AST)
+PROP_FILES = PROP_FILES + ["Props/T_directives.v", "Props/T_directives2.v"]
+RUN_FILES = RUN_FILES + ["Run/TRunDirectives.v", "Run/TRun3.v"]
 _explore_without_t = explore
 
 
 def explore(rep, br, tier, seed):
     _explore_without_t(rep, br, tier, seed)
     t_check.explore_t(rep, tier, seed, pid=ID, only=["directives"])
+    t_check3.explore_directives3(rep, tier, seed, pid=ID)
